@@ -52,6 +52,12 @@ type spyStore struct {
 func (s *spyStore) do(ctx context.Context, op, sid string, arg map[string]any, run func() (map[string]any, error)) error {
 	d := s.d
 	g := d.arrive("store", map[string]any{"op": op, "check": ctx.Value(checkKey{})})
+	if d.parallel && g.check == d.orphan {
+		// truly parallel flows attribute a store call by its context; a call made on a detached context (a write that must
+		// outlive the request) cannot be attributed and is not logged
+		_, err := run()
+		return err
+	}
 	ev := map[string]any{"ev": "store", "n": g.check.n, "c": g.check.id, "f": g.check.f, "store": s.id, "op": op,
 		"sid": d.symSid(sid), "fault": "none", "arg": arg, "lin": 0, "cmdFaultHit": false}
 	fault := g.dir.Fault
